@@ -477,6 +477,10 @@ class FSM(object):
         elif self.state in (bgp_cons.ST_CONNECT, bgp_cons.ST_ACTIVE):
             # States Connect, Active, event 26
             self._error_close()
+        elif self.state == bgp_cons.ST_OPENSENT:
+            # State OpenSent, event 26
+            self.protocol.send_notification(bgp_cons.ERR_FSM, 0)
+            self._error_close()
 
     def update_received(self):
 
